@@ -406,6 +406,7 @@ def prepare_instance(inst, wd):
                                  {'exceptions': inst.get('exceptions'), 'nsw_check': inst.get('nsw_check'),
                                   'seq': seq, 'nthreads': inst.get('nthreads', 5),
                                   'intercept': inst.get('intercept'), 'rt_defs': inst.get('rt_defs', {}),
+                                  'devirt': inst.get('devirt'),
                                   'typed_alloc': inst.get('typed_alloc', True)})
     except llir.Unsupported as e:
         raise Inconclusive('translator: unsupported construct: %s' % e)
